@@ -1,41 +1,74 @@
 """C52 -- qualified names round-trip through their quoted text form.  Tie: X (correspondence).
 
-Proof: Props/C52.v over Model/Idents.v (all strings, unbounded).  Implementation: harness bin c52 runs the real
+Proof: Props/C52.v over Model/Idents.v (all strings, unbounded).  Implementation: harness bins c52 (datafusion-common
+with feature sql: sqlparser tokenizer) and c52n (without: the fallback parser in utils/mod.rs) run the real
 TableReference::to_quoted_string -> parse_str and Column::quoted_flat_name -> from_qualified_name.
 Oracle: parsed-back object == original.  Correspondence: the model's printed text, Display text and re-parse are
-equal to the implementation's on every case, and the model parser agrees on arbitrary text."""
+equal to the implementation's on every case, and the model parsers agree with the real ones on arbitrary text."""
+import os
+
 import vlib
 from vlib import Check, coq_bool
 
-# the theorems' side condition (Model/Idents.v ref_ok / col_ok), recomputed here from the raw input
-def in_hypothesis(c):
+VARIANTS = [
+    # name, crate, bin, model checker, what the build is
+    ("sql", "h_common", "c52", "c52_pcheck ua us", "datafusion-common with feature sql (sqlparser)"),
+    ("nosql", "h_common_nosql", "c52n", "c52_pcheck_ns", "datafusion-common without feature sql (fallback parser)"),
+]
+
+
+# the theorems' side conditions (Model/Idents.v ref_ok/col_ok and ref_ok_ns/col_ok_ns), recomputed from the raw input
+def in_hypothesis(variant, c):
     if c["k"] == "tr":
-        return len(c["parts"]) == 1 or all(len(p) > 0 for p in c["parts"])
+        ps = c["parts"]
+        if len(ps) == 1:
+            return True
+        return all(len(p) > 0 for p in ps) if variant == "sql" else len(ps[-1]) > 0
     if c["k"] == "col":
-        return len(c["rel"]) == 0 or (all(len(p) > 0 for p in c["rel"]) and len(c["name"]) > 0)
+        if len(c["rel"]) == 0:
+            return True
+        if variant == "sql":
+            return all(len(p) > 0 for p in c["rel"]) and len(c["name"]) > 0
+        return len(c["name"]) > 0
     return True
 
 
-EMPTY_PART = ("reference with an empty part (2/3-part TableReference or qualified Column) does not round-trip: "
-              "needs_quotes(\"\") is false, the quoted text gets a leading/doubled/trailing '.', parse_str falls back to one bare name")
+# keys under which the coordinator may record the suspected defect in known_findings.json
+EMPTY_PART = {
+    "sql": "empty identifier part does not round-trip (sql build): needs_quotes(\"\") is false, the quoted text gets a "
+           "leading/doubled/trailing '.', parse_multipart_identifier rejects it and the whole text becomes one bare name",
+    "nosql": "empty last identifier part does not round-trip (build without sql): needs_quotes(\"\") is false and the fallback "
+             "parse_identifiers drops an empty last piece, so the text resolves to a shorter, different reference",
+}
+
+
+def pack(xs):
+    """three code points per 63-bit literal: (c1+1) + (c2+1)<<21 + (c3+1)<<42 (Model/C52Corr.v unpack)"""
+    out = []
+    for i in range(0, len(xs), 3):
+        v = 0
+        for j, c in enumerate(xs[i:i + 3]):
+            v |= (int(c) + 1) << (21 * j)
+        out.append(str(v))
+    return "[" + "; ".join(out) + "]"
+
+
+def packl(xss):
+    return "[" + "; ".join(pack(x) for x in xss) + "]"
 
 
 def nl(xs):
-    return "[" + "; ".join(str(int(x)) for x in xs) + "]"
-
-
-def nll(xss):
-    return "[" + "; ".join(nl(x) for x in xss) + "]"
+    return "[" + "; ".join("%d%%N" % int(x) for x in xs) + "]"
 
 
 def render(c):
     if c["k"] == "tr":
-        return "CTr %s %s %s %s" % (nll(c["parts"]), nl(c["text"]), nl(c["disp"]), nll(c["back"]))
+        return "PTr %s %s %s %s" % (packl(c["parts"]), pack(c["text"]), pack(c["disp"]), packl(c["back"]))
     if c["k"] == "col":
-        return "CCol %s %s %s %s %s %s" % (nll(c["rel"]), nl(c["name"]), nl(c["text"]), nl(c["flat"]),
-                                         nll(c["back_rel"]), nl(c["back_name"]))
+        return "PCol %s %s %s %s %s %s" % (packl(c["rel"]), pack(c["name"]), pack(c["text"]), pack(c["flat"]),
+                                         packl(c["back_rel"]), pack(c["back_name"]))
     if c["k"] == "parse":
-        return "CParse %s %s %s %s %s" % (nl(c["text"]), coq_bool(c["ic"]), nll(c["tr"]), nll(c["col_rel"]), nl(c["col_name"]))
+        return "PParse %s %s %s %s %s" % (pack(c["text"]), coq_bool(c["ic"]), packl(c["tr"]), packl(c["col_rel"]), pack(c["col_name"]))
     raise ValueError(c)
 
 
@@ -43,36 +76,44 @@ def show(cps):
     return "".join(chr(x) for x in cps)
 
 
-def describe(c):
+def describe(variant, c):
+    pre = "[%s build] " % variant
     if c.get("panic"):
-        return "panic in %s on %s" % (c["k"], {k: v for k, v in c.items() if k not in ("k", "ok", "panic")})
+        return pre + "panic in %s on %s" % (c["k"], {k: v for k, v in c.items() if k not in ("k", "ok", "panic")})
     if c["k"] == "tr":
-        return "TableReference parts=%r -> to_quoted_string=%r -> parse_str parts=%r (expected the original parts)" % (
+        return pre + "TableReference parts=%r -> to_quoted_string=%r -> parse_str gives parts=%r (expected the original parts)" % (
             [show(p) for p in c["parts"]], c.get("text_s"), [show(p) for p in c["back"]])
     if c["k"] == "col":
-        return "Column relation=%r name=%r -> quoted_flat_name=%r -> from_qualified_name relation=%r name=%r" % (
+        return pre + "Column relation=%r name=%r -> quoted_flat_name=%r -> from_qualified_name gives relation=%r name=%r" % (
             [show(p) for p in c["rel"]], show(c["name"]), c.get("text_s"), [show(p) for p in c["back_rel"]], show(c["back_name"]))
     if c["k"] == "inj":
-        return "quote_identifier(%r) == quote_identifier(%r) == %r" % (show(c.get("a", [])), show(c.get("b", [])), c.get("text_s"))
-    return str(c)[:400]
+        return pre + "quote_identifier(%r) == quote_identifier(%r) == %r" % (show(c.get("a", [])), show(c.get("b", [])), c.get("text_s"))
+    return pre + str(c)[:400]
 
 
-def run(pid, tier, seed, replay):
-    ck = Check(pid, tier, seed, level="proof")
-    n = 1500 if tier == "quick" else 40000
-    proof_ok = ck.proof_step()
-    ok, out, dt = vlib.cargo_build("h_common", bin="c52")
-    ck.log("cargo build h_common: ok=%s (%.0fs)" % (ok, dt))
+def nontrivial(c):
+    # rule: tr/col: the printed text contains a quote or a '.'; parse: the text has >= 2 characters
+    if c["k"] in ("tr", "col"):
+        return 34 in c.get("text", []) or 46 in c.get("text", [])
+    if c["k"] == "parse":
+        return len(c["text"]) >= 2
+    return False
+
+
+def run_variant(ck, variant, crate, exe, checker, seed, n, have_model):
+    pid = ck.pid
+    ok, out, dt = vlib.cargo_build(crate, bin=exe)
+    ck.log("cargo build %s: ok=%s (%.0fs)" % (crate, ok, dt))
     if not ok:
-        ck.problem("tie", "harness build failed:\n" + out[-3000:])
-        return ck.finish()
-    rc, so, se, dt = vlib.run_bin("c52", ["--seed", seed, "--n", n])
+        ck.problem("tie", "harness build failed (%s):\n%s" % (crate, out[-3000:]))
+        return None
+    rc, so, se, dt = vlib.run_bin(exe, ["--seed", seed, "--n", n])
     cases = vlib.jsonl(so)
     if rc != 0:
-        ck.problem("tie", "harness run ended abnormally rc=%d: %s" % (rc, se[-1500:]))
+        ck.problem("tie", "harness %s ended abnormally rc=%d: %s" % (exe, rc, se[-1500:]))
     if not cases:
-        ck.problem("tie", "harness produced no cases")
-        return ck.finish()
+        ck.problem("tie", "harness %s produced no cases" % exe)
+        return None
     uni = [c for c in cases if c["k"] == "uni"]
     table = uni[0]["table"] if uni else []
     cases = [c for c in cases if c["k"] != "uni"]
@@ -81,97 +122,123 @@ def run(pid, tier, seed, replay):
         kinds[c["k"]] = kinds.get(c["k"], 0) + 1
 
     # ---- direct property oracle on the implementation's own output (independent of the model)
-    inside = [c for c in cases if c["k"] in ("tr", "col") and in_hypothesis(c)]
-    outside = [c for c in cases if c["k"] in ("tr", "col") and not in_hypothesis(c)]
+    inside = [c for c in cases if c["k"] in ("tr", "col") and in_hypothesis(variant, c)]
+    outside = [c for c in cases if c["k"] in ("tr", "col") and not in_hypothesis(variant, c)]
     for c in cases:
-        if c["k"] in ("tr", "col") and not in_hypothesis(c):
+        if c["k"] in ("tr", "col") and not in_hypothesis(variant, c) and not c.get("panic"):
             continue
         if not c.get("ok", True):
-            ck.fail_input(describe(c), c)
+            ck.fail_input(describe(variant, c), dict(c, variant=variant))
     # outside the theorems' side condition (an empty part): report what the implementation does
-    out_fail = [c for c in outside if not c.get("ok", True)]
-    out_panic = [c for c in outside if c.get("panic")]
-    for c in out_panic:
-        ck.fail_input(describe(c), c)
-    known = [k for k in vlib.load_known().get("findings", []) if k.get("property") == pid and k.get("key") == EMPTY_PART]
+    out_fail = [c for c in outside if not c.get("ok", True) and not c.get("panic")]
+    known = [k for k in vlib.load_known().get("findings", []) if k.get("property") == pid and k.get("key") == EMPTY_PART[variant]]
     if out_fail and known:
-        ck.fail_input(EMPTY_PART, {"example": describe(out_fail[0]), "count": len(out_fail)})
-    ck.notes.append("inputs outside the side condition (some part empty in a 2/3-part reference or qualified column): "
-                    "%d generated, %d round-trip, %d do not (e.g. %s). The model predicts exactly this behaviour "
-                    "(theorem C52_empty_part_refuted); reported as suspected defect, not as a violation of the proved statement."
-                    % (len(outside), len(outside) - len(out_fail), len(out_fail), describe(out_fail[0]) if out_fail else "-"))
+        ck.fail_input(EMPTY_PART[variant], {"example": describe(variant, out_fail[0]), "count": len(out_fail)})
+    ck.notes.append("%s build: inputs outside the side condition (%s): %d generated, %d round-trip, %d do not (e.g. %s). "
+                    "The model predicts exactly this behaviour (theorem %s); reported as suspected defect, not as a violation of "
+                    "the proved statement."
+                    % (variant,
+                       "some part empty in a 2/3-part reference or qualified column" if variant == "sql"
+                       else "last part / column name empty in a qualified reference",
+                       len(outside), len(outside) - len(out_fail), len(out_fail),
+                       describe(variant, out_fail[0]) if out_fail else "-",
+                       "C52_empty_part_refuted" if variant == "sql" else "C52_ns_empty_last_refuted"))
 
     # ---- correspondence: model vs implementation, text + re-parse, on every case (also outside the hypothesis)
     corr = [c for c in cases if c["k"] in ("tr", "col", "parse") and not c.get("panic")]
     tbl = {int(r[0]): (bool(r[1]), bool(r[2])) for r in table}
     missing = set()
     for c in corr:
-        for key in ("text", "name"):
-            for x in c.get(key, []):
-                if x >= 128 and x not in tbl:
-                    missing.add(x)
+        flat = list(c.get("text", [])) + list(c.get("name", []))
         for key in ("parts", "rel"):
             for p in c.get(key, []):
-                for x in p:
-                    if x >= 128 and x not in tbl:
-                        missing.add(x)
+                flat += p
+        missing |= {x for x in flat if x >= 128 and x not in tbl}
     if missing:
         ck.problem("tie", "non-ASCII code points without a Unicode table row: %s" % sorted(missing)[:10])
-    import os
-    if os.path.exists(os.path.join(vlib.COQ, "Model/Idents.vo")):
-        pre = ("From Coq Require Import List NArith Bool.\nFrom DF Require Import Base.Prelude Model.Idents.\n"
-               "Import ListNotations.\nOpen Scope N_scope.\n"
+    ndis = None
+    if have_model:
+        pre = ("From Coq Require Import List NArith Bool Uint63.\n"
+               "From DF Require Import Base.Prelude Model.Idents Model.C52Corr.\n"
+               "Import ListNotations.\nOpen Scope uint63_scope.\n"
                "Definition ua (c : N) : bool := one_of %s c.\nDefinition us (c : N) : bool := one_of %s c.\n"
                % (nl([k for k, v in sorted(tbl.items()) if v[0]]), nl([k for k, v in sorted(tbl.items()) if v[1]])))
-        bad, log, dt = vlib.coq_eval_cases(pre, "c52_case", "c52_check ua us", [render(c) for c in corr], shard=1500, tag="c52")
-        ck.log("correspondence: %d cases, %d disagreements (%.1fs)" % (len(corr), len(bad), dt))
+        bad, log, dt = vlib.coq_eval_cases(pre, "c52_pcase", checker, [render(c) for c in corr], shard=1500, tag="c52_" + variant)
+        ndis = len(bad)
+        ck.log("correspondence (%s): %d cases, %d disagreements (%.1fs)" % (variant, len(corr), len(bad), dt))
         if bad:
             first = bad[0]
-            detail = describe(corr[first]) if isinstance(first, int) else log
             if isinstance(first, int):
-                detail += " raw=" + str({k: v for k, v in corr[first].items() if k != "ok"})[:500]
-            ck.problem("tie", "model and implementation disagree on %d case(s); first: %s" % (len(bad), str(detail)[:1200]))
+                detail = describe(variant, corr[first]) + " raw=" + str({k: v for k, v in corr[first].items() if k != "ok"})[:500]
+            else:
+                detail = log
+            ck.problem("tie", "model and implementation (%s build) disagree on %d case(s); first: %s" % (variant, len(bad), str(detail)[:1200]))
 
-    def nontrivial(c):
-        # rule: a tr/col case is non-trivial when at least one part needs quoting (the quoting/unescaping path runs)
-        # and there are >= 2 parts, or the text contains an escaped quote; parse cases: text with >= 2 tokens
-        if c["k"] in ("tr", "col"):
-            return 34 in c.get("text", []) or 46 in c.get("text", [])
-        if c["k"] == "parse":
-            return len(c["text"]) >= 2
-        return False
-    distinct = len({vlib.case_hash({k: v for k, v in c.items() if k != "ok"}) for c in cases if nontrivial(c)})
-    quoted = sum(1 for c in inside if 34 in c.get("text", []))
-    escaped = sum(1 for c in inside if any(34 in p for p in c.get("parts", c.get("rel", []) + [c.get("name", [])])))
-    sample = lambda k: next(({kk: vv for kk, vv in c.items()} for c in cases if c["k"] == k and 34 in c.get("text", []) and len(c.get("text", [])) > 8), None)
+    def good_sample(k):
+        for c in cases:
+            if c["k"] == k and c.get("ok") and 34 in c.get("text", []) and len(c.get("text", [])) > 8 and in_hypothesis(variant, c):
+                return c
+        return None
+    return {
+        "variant": variant,
+        "cases": cases,
+        "stats": {
+            "build": [v[4] for v in VARIANTS if v[0] == variant][0],
+            "evaluations": len(cases),
+            "case_kinds": kinds,
+            "inside_hypothesis": len(inside),
+            "inside_with_quoted_part": sum(1 for c in inside if 34 in c.get("text", [])),
+            "inside_with_embedded_quote": sum(1 for c in inside if any(34 in p for p in c.get("parts", c.get("rel", []) + [c.get("name", [])]))),
+            "outside_hypothesis": len(outside),
+            "outside_hypothesis_roundtrip_failures": len(out_fail),
+            "correspondence_cases": len(corr),
+            "correspondence_disagreements": ndis,
+        },
+        "table": table,
+        "samples": [s for s in (good_sample("tr"), good_sample("col"), good_sample("parse")) if s],
+    }
+
+
+def run(pid, tier, seed, replay):
+    ck = Check(pid, tier, seed, level="proof")
+    n = 1500 if tier == "quick" else 40000
+    ck.proof_step(extra_targets=["Model/C52Corr.vo"])
+    have_model = os.path.exists(os.path.join(vlib.COQ, "Model/C52Corr.vo"))
+    results = []
+    for variant, crate, exe, checker, _ in VARIANTS:
+        r = run_variant(ck, variant, crate, exe, checker, seed, n, have_model)
+        if r:
+            results.append(r)
+    if not results:
+        return ck.finish()
+    allc = [c for r in results for c in r["cases"]]
+    distinct = len({vlib.case_hash({k: v for k, v in c.items() if k != "ok"}) for c in allc if nontrivial(c)})
     ck.coverage.update({
-        "evaluations": len(cases),
+        "evaluations": len(allc),
         "distinct_nontrivial": distinct,
-        "rule": "exhaustive: every string of length <=3 over {a A 1 _ . \" space e-acute newline} (820) as a bare reference, in each position of "
-                "2- and 3-part references, as column name and in relation positions (other parts random); full products over strings of length <=1; "
-                "40 fixed words (keywords, literal prefixes b r n nq q e u x, digits-first, quotes, dots); random 0..6-char strings over a 56-symbol "
-                "nasty alphabet (both cases, digits, _ . \" ' ` space tab CR LF backslash NUL VT, non-ASCII letters/emoji/NBSP/ideographic space/"
-                "combining mark/superscript/arabic digit, - / # @ $ & ( *); parse tie: all 4681 texts of length <=4 over {a B 1 _ . \" space '} + "
-                "75 hand-written texts + random texts over the modelled alphabet, both case modes. non-trivial = the text contains a quote or a '.' "
-                "(tr/col) or has >= 2 characters (parse)",
-        "case_kinds": kinds,
-        "inside_hypothesis": len(inside),
-        "inside_with_quoted_part": quoted,
-        "inside_with_embedded_quote": escaped,
-        "outside_hypothesis": len(outside),
-        "outside_hypothesis_roundtrip_failures": len(out_fail),
-        "correspondence_cases": len(corr),
-        "unicode_table": table,
-        "samples": [s for s in (sample("tr"), sample("col"), sample("parse")) if s],
+        "rule": "per build (sql / nosql), same generator: exhaustive: every string of length <=3 over {a A 1 _ . \" space e-acute newline} (820) "
+                "as a bare reference, in each position of 2- and 3-part references, as column name and in relation positions (other parts random); "
+                "full products over strings of length <=1; 40 fixed words (keywords, literal prefixes b r n nq q e u x, digit-first, quotes, dots); "
+                "random 0..6-char strings over a 56-symbol nasty alphabet (both cases, digits, _ . \" ' ` space tab CR LF backslash NUL VT, non-ASCII "
+                "letters/emoji/NBSP/ideographic space/combining mark/superscript/arabic digit, - / # @ $ & ( *); parse tie: all 4681 texts of length "
+                "<=4 over {a B 1 _ . \" space '} + 75 hand-written texts + random texts, both case modes. distinct_nontrivial counts distinct "
+                "cases (over both builds; identical cases of the two builds count once) whose printed text contains a quote or a '.' (tr/col) or "
+                "whose text has >= 2 characters (parse)",
+        "per_build": {r["variant"]: r["stats"] for r in results},
+        "unicode_table": results[0]["table"],
+        "samples": [s for r in results for s in r["samples"]][:6],
         "trusted_base": vlib.TRUSTED_COMMON + [
-            "Model/Idents.v is a hand-written model of needs_quotes/quote_identifier/to_quoted_string/parse_str/from_idents and of the slice of "
-            "sqlparser 0.62 (GenericDialect tokenizer next_token, parse_multipart_identifier) they use; tokens starting with - / # @ are not modelled "
-            "(cannot occur unquoted in printed text); its output is compared with the implementation on every case",
-            "char::is_alphabetic / is_whitespace for non-ASCII code points are abstract in the theorems (hold for every table); the tie uses the "
-            "values the Rust std reports for the generated characters",
-            "datafusion-common is built with feature sql (sqlparser tokenizer), as the datafusion crate does by default; the cfg(not(feature = sql)) "
-            "fallback parser in utils/mod.rs is not covered"],
+            "Model/Idents.v is a hand-written model of needs_quotes/quote_identifier/to_quoted_string/parse_str/from_idents, of the slice of "
+            "sqlparser 0.62 (GenericDialect tokenizer next_token, parse_multipart_identifier) they use with feature sql, and of the fallback "
+            "parse_identifiers without it; tokens starting with - / # @ are not modelled for the sql tokenizer (they cannot occur unquoted in "
+            "printed text); the model's output is compared with the implementation on every case",
+            "char::is_alphabetic / is_whitespace for non-ASCII code points are abstract in the theorems (they hold for every table); the tie uses "
+            "the values the Rust std reports for the generated characters",
+            "Model/C52Corr.v unpacks the case encoding (3 code points per 63-bit literal) written by lib/props/C52.py"],
     })
     ck.assumptions = ["strings are sequences of Unicode scalar values (Rust str); the theorems hold for arbitrary lists of naturals",
-                      "side condition ref_ok/col_ok: no empty part in a 2/3-part reference or qualified column (needed: C52_empty_part_refuted)"]
+                      "side condition, sql build (ref_ok/col_ok): no empty part in a 2/3-part reference or qualified column "
+                      "(necessary: C52_empty_part_refuted)",
+                      "side condition, build without sql (ref_ok_ns/col_ok_ns): last part / column name not empty "
+                      "(necessary: C52_ns_empty_last_refuted)"]
     return ck.finish()
